@@ -128,7 +128,33 @@ func c09Profiles(tier string) []Profile {
 				{"Flush", func(w *harness.World) { w.Flush() }},
 			}
 		}}
+	// a torn tail of every length after the last root record, then re-open and flush
+	torn := &SeqProfile{Name: "torntail", Keys: keys, Depth: 0, Mon: mon, StepLimit: 400000,
+		Init: func(w *harness.World) {
+			n := harness.Choose(4400, harness.ClassOp)
+			w.Hist = append(w.Hist, fmt.Sprintf("Set(a) Flush Set(b) Flush +%d junk bytes, Reopen, Set(a), Flush", n))
+			w.SetCollection("x", "nil")
+			w.SetItem("x", kA, 1, bs("v"))
+			w.Flush()
+			w.SetItem("x", kB, 2, bs("w"))
+			w.Flush()
+			junk := make([]byte, n)
+			for i := range junk {
+				junk[i] = byte('J' + i%7)
+			}
+			w.File.Data = append(w.File.Data, junk...)
+			w.Reopen(true)
+			ensureX(w)
+			w.SetItem("x", kA, 3, bs("v2"))
+			w.Flush()
+		},
+		Letters: func(w *harness.World) []Letter { return nil }}
+	faulted := Profile{Name: "faulted", Exec: OnlyOracles(c07Exec(1, 1, false), "append", "readonly-write"),
+		Budget: map[int]int{1: 0, 2: 0, 3: 1}, ShardLevel: 3,
+		Rule: "the C07 driver (5 initial stores x every single I/O-performing operation x one failing file call at every index, torn writes) evaluated with the file monitor only: a failed Flush, FlushRevert, open or CopyTo must not write below the last durable root record nor truncate to anything but 0 or a root-record end"}
 	return []Profile{
+		torn.Profile("history [Set Flush, Set Flush] + a torn tail of every length 0..4399 bytes appended after the last root record, then Reopen, Set, Flush under the file monitor (no write below the last durable root record, the Flush tiles from the logical size) and the model (the re-opened store is the last flush)"),
+		faulted,
 		ro.Profile(fmt.Sprintf("every history of length <= %d mixing Set/Delete/Flush/Reopen/FlushRevert with every read-only entry point (Get, GetItem, Exist, Min, Max, 3 visit APIs, iterator, Len, block and random visits, EvictSomeItems, Stats, CopyTo as source, Snapshot and every snapshot method); every WriteAt/Truncate the store issues is checked: offset >= end of the last durable root record, writes of a Flush tile the appended region, Truncate only inside FlushRevert of the writable store and only to 0 or the end of a root record (independent decoder), zero writes/truncates during read-only calls", d)),
 		stores.Profile(fmt.Sprintf("every history of length <= %d over the C02/C12 store alphabet (two collections, SetCollection/RemoveCollection, Evict, Flush, Reopen) plus FlushRevert, same per-call file checks", d+1)),
 		view.Profile(fmt.Sprintf("every history of length <= %d over Set/Delete/SetCollection/Flush; tools/view (built from the tree) is run on every distinct flushed image: names and items output equal the model, file bytes unchanged", dv)),
